@@ -157,46 +157,53 @@ structure IdRes where
 
 /-- `ForkId.forkId(buf, start)` as a fold over the parts from `start` on.
 `first` = this is the first part of the current invocation (`i == 0`),
-`idx`/`dim` = `forkIndex`/`forkDim`.  `reenter` selects what the recursive call
-made after flushing an array index in front of a map part starts with:
-`false` = the part *after* the map part (the code as found: `start+i+1`),
-`true` = the map part itself (`start+i`). -/
-def forkIdGo (reenter : Bool) : Nat → List Part → Bool → Nat → Nat → Bytes → IdRes
+`idx`/`dim` = `forkIndex`/`forkDim`.  Two switches select between the code as
+it was found and as it is now (both regenerated from the source as facts):
+`reenter`: what the recursive call made after flushing an array index in front
+of a map part starts with — `false` = the part *after* the map part
+(`start+i+1`), `true` = the map part itself (`start+i`);
+`skipEmpty`: what happens at a part whose range is empty — `false` = stop and
+return (`return forkIndex == 0, nil`), `true` = skip it like an unresolved
+part (`continue`). -/
+def forkIdGo (reenter skipEmpty : Bool) : Nat → List Part → Bool → Nat → Nat → Bytes → IdRes
   | 0, _, _, _, _, buf => ⟨true, buf, false⟩
   | _ + 1, [], _, idx, dim, buf =>
     if idx == 0 && buf.isEmpty then ⟨true, buf, true⟩
     else ⟨false, buf ++ forkIndexStr dim idx, true⟩
-  | fuel + 1, .undet :: rest, _, idx, dim, buf => forkIdGo reenter fuel rest false idx dim buf
-  | _ + 1, .empty :: _, _, idx, _, buf => ⟨idx == 0, buf, true⟩
+  | fuel + 1, .undet :: rest, _, idx, dim, buf => forkIdGo reenter skipEmpty fuel rest false idx dim buf
+  | fuel + 1, .empty :: rest, _, idx, dim, buf =>
+    if skipEmpty then forkIdGo reenter skipEmpty fuel rest false idx dim buf else ⟨idx == 0, buf, true⟩
   | fuel + 1, .arr i len static :: rest, first, idx, dim, buf =>
-    if len == 0 then ⟨idx == 0, buf, true⟩
+    if len == 0 then
+      (if skipEmpty then forkIdGo reenter skipEmpty fuel rest false idx dim buf else ⟨idx == 0, buf, true⟩)
     else if len ≤ i then ⟨idx == 0, buf, false⟩
     else if !static && 1 < len && !first then
-      forkIdGo reenter fuel rest false i len (buf ++ forkIndexStr dim idx ++ [cUnder])
-    else forkIdGo reenter fuel rest false (idx + dim * i) (dim * len) buf
+      forkIdGo reenter skipEmpty fuel rest false i len (buf ++ forkIndexStr dim idx ++ [cUnder])
+    else forkIdGo reenter skipEmpty fuel rest false (idx + dim * i) (dim * len) buf
   | fuel + 1, .key k keys static :: rest, first, idx, dim, buf =>
-    if keys.length == 0 then ⟨idx == 0, buf, true⟩
+    if keys.length == 0 then
+      (if skipEmpty then forkIdGo reenter skipEmpty fuel rest false idx dim buf else ⟨idx == 0, buf, true⟩)
     else if !keys.contains k then ⟨idx == 0, buf, false⟩
     else if first then
       let buf := buf ++ sForkU ++ pathEscape k
       if rest.isEmpty then ⟨false, buf, true⟩
       else
-        let r := forkIdGo reenter fuel rest true 0 1 (buf ++ [cSlash])
+        let r := forkIdGo reenter skipEmpty fuel rest true 0 1 (buf ++ [cSlash])
         if !r.ok then ⟨true, r.buf, false⟩
         else if r.isDefault then ⟨false, r.buf ++ sFork0, true⟩
         else ⟨false, r.buf, true⟩
     else
       let buf := buf ++ forkIndexStr dim idx ++ [cSlash]
-      if reenter then forkIdGo reenter fuel (.key k keys static :: rest) true 0 1 buf
-      else forkIdGo reenter fuel rest true 0 1 buf
+      if reenter then forkIdGo reenter skipEmpty fuel (.key k keys static :: rest) true 0 1 buf
+      else forkIdGo reenter skipEmpty fuel rest true 0 1 buf
 
 /-- `ForkId.ForkIdString` (`none` = error, on which `Fork.updateId` panics). -/
-def forkIdString (reenter : Bool) (parts : List Part) : Option Bytes :=
+def forkIdString (reenter skipEmpty : Bool) (parts : List Part) : Option Bytes :=
   match parts with
   | [] => some sFork0
   | [p] => singleId p
   | _ =>
-    let r := forkIdGo reenter (2 * parts.length + 2) parts true 0 1 []
+    let r := forkIdGo reenter skipEmpty (2 * parts.length + 2) parts true 0 1 []
     if !r.ok then none else if r.isDefault then some sFork0 else some r.buf
 
 /-! ## Names derived from a fork id -/
